@@ -29,6 +29,99 @@ def fields(inp):
     return kv
 
 
+WRITE_SITE = re.compile(r"\.number\s*=[^=]|\bnumber:\s|symtable\s*(\[[^\]]*\])?\s*=[^=]|nextsymbol\s*(=[^=]|\+\+|\+=|--|-=)|delete\([A-Za-z_.]*symtable")
+ALLOWED_WRITERS = {"NewZlispWithFuncs", "Clone", "Duplicate", "MakeSymbol"}
+
+
+def write_sites():
+    """Source scan (tie T): every statement of package zygo that writes a symbol number, the two
+    tables or the counter must be inside the four modelled functions.  Returns the offending sites."""
+    bad, found = [], set()
+    zdir = os.path.join(common.REPO, "zygo")
+    for fn in sorted(os.listdir(zdir)):
+        if not fn.endswith(".go") or fn.endswith("_test.go") or fn.startswith("verif_"):
+            continue
+        cur = "?"
+        for ln, line in enumerate(open(os.path.join(zdir, fn), errors="replace"), 1):
+            m = re.match(r"func\s+(?:\([^)]*\)\s*)?([A-Za-z0-9_]+)", line)
+            if m:
+                cur = m.group(1)
+            code = line.split("//")[0]
+            if WRITE_SITE.search(code):
+                found.add(cur)
+                if cur not in ALLOWED_WRITERS or fn != "environment.go":
+                    bad.append("%s:%d %s: %s" % (fn, ln, cur, code.strip()[:100]))
+    missing = sorted(ALLOWED_WRITERS - found)
+    return bad, missing
+
+
+def run_candidates(c, cands):
+    """Run candidate histories (route, pro, act strings) on the real interpreters and judge them with
+    the specification; returns a list of (input, impl, model, spec)."""
+    exe = os.path.join(common.BUILD, "c19")
+    rp = os.path.join(common.BUILD, "C19.shrink.replay")
+    cs = os.path.join(common.BUILD, "C19.shrink.cases")
+    st = os.path.join(common.BUILD, "C19.shrink.stats")
+    with open(rp, "w") as g:
+        for route, pro, act in cands:
+            g.write("route=%s;act=%s;pro=%s\n" % (route, act, pro))
+    rc, out = common.sh([exe, "--replay", rp, "--out", cs, "--stats", st], cwd=common.BUILD, timeout=300, env=common.env_go())
+    if rc != 0:
+        return []
+    joined = cs + ".in"
+    with open(cs) as f, open(joined, "w") as g:
+        for line in f:
+            a = line.rstrip("\n").split("\t")
+            if len(a) >= 3:
+                g.write("%s\t%s;impl=%s\n" % (a[0], a[1], a[2]))
+    mexe = os.path.join(common.BUILD, "ocaml", "c19", "run")
+    mo = cs + ".model"
+    rc, err = common.run_model(mexe, joined, mo)
+    if rc != 0:
+        return []
+    return [(inp, impl, model, spec) for _, inp, impl, model, spec in iter_joined(cs, mo)]
+
+
+def shrink(c, f):
+    """Greedy shrinking: cut the history after the rejected answer, then drop single actions
+    (never a Duplicate/Clone, which would renumber the members) while the rejection remains."""
+    kv = fields(f["input"])
+    route, pro = kv.get("route", "api"), kv.get("pro", "")
+    acts = [a for a in kv.get("act", "").split(",") if a]
+    m = re.match(r"bad:answer@(\d+)", f["specification"])
+    if m:
+        k, pos = int(m.group(1)), 0
+        for i, a in enumerate(acts):
+            pos += 2 if a[0] == "m" else 1
+            if pos > k:
+                acts = acts[:i + 1]
+                break
+    best = None
+    for _ in range(50):
+        cands = [(route, pro, ",".join(acts))]
+        idx = [i for i, a in enumerate(acts) if a[0] not in "DC"]
+        for i in idx:
+            cands.append((route, pro, ",".join(acts[:i] + acts[i + 1:])))
+        res = run_candidates(c, cands)
+        if len(res) != len(cands):
+            break
+        if res[0][3] == "ok":
+            break       # not reproducible on a fresh family: keep the original
+        best = res[0]
+        nxt = None
+        for j in range(len(res) - 1, 0, -1):
+            if res[j][3] != "ok" and res[j][3] != "-":
+                nxt = idx[j - 1]
+                break
+        if nxt is None:
+            break
+        acts = acts[:nxt] + acts[nxt + 1:]
+    if best:
+        return {"input": best[0], "implementation": best[1], "model": best[2], "specification": best[3],
+                "shrunk_from": kv.get("act", "")}
+    return f
+
+
 def main(argv):
     c = Check("C19", argv)
     c.proofs()
@@ -40,8 +133,10 @@ def main(argv):
     ])
     c.assumptions += [
         "strconv.Itoa is the decimal rendering Symtab.itoa (digits of Z.to_int)",
-        "all symbols are created by Zlisp.MakeSymbol (the only site that constructs a numbered SexpSymbol)",
+        "symbol numbers, the two tables and the counter are written only in environment.go MakeSymbol/Duplicate/Clone/NewZlispWithFuncs (checked on every run by a source scan of zygo/*.go)",
     ]
+    bad_sites, missing = write_sites()
+    c.coverage["symbol_write_sites_outside_model"] = bad_sites
     cases = c.harness("c19")
     prop_fail, corr_fail = [], []
     if cases:
@@ -64,7 +159,8 @@ def main(argv):
                     corr_fail.append({"input": inp, "implementation": impl, "model": model, "specification": spec})
             c.coverage["compared"] = n
             c.coverage["traces_validated_against_impl"] = n
-    # property failures: the shortest histories first, one report per kind of rejection and route
+    # property failures: the shortest histories first, one report per kind of rejection and route,
+    # each shrunk by re-running candidate histories on the real interpreters
     def size(f):
         return (len(fields(f["input"]).get("act", "").split(",")), len(f["input"]))
     prop_fail.sort(key=size)
@@ -76,6 +172,9 @@ def main(argv):
             continue
         seen.add(key)
         if len(seen) <= 4:
+            if not c.replay_in:
+                f = shrink(c, f)
+                kv = fields(f["input"])
             f["kind"] = "the implementation's answers are rejected by the injective-table specification (spec_check): " + f["specification"]
             f["actions"] = kv.get("act", "")
             f["prologue"] = kv.get("pro", "")
@@ -90,6 +189,10 @@ def main(argv):
                          "cases": corr_fail[:10], "count": len(corr_fail)}, no_input=True, tag="corr")
         elif c.proof_break:
             c.violation({"kind": "proof obligation no longer checks", "detail": c.proof_break}, no_input=True, tag="proof")
+        elif bad_sites or missing:
+            c.violation({"kind": "source shape: symbol numbers, symtable/revsymtable or nextsymbol are written outside the modelled functions "
+                                 "(environment.go MakeSymbol, Duplicate, Clone, NewZlispWithFuncs), or one of those no longer writes them",
+                         "sites": bad_sites, "modelled_functions_without_writes": missing}, no_input=True, tag="shape")
     c.coverage["property_failures"] = len(prop_fail)
     c.coverage["correspondence_failures"] = len(corr_fail)
     c.finish("proof")
